@@ -212,12 +212,22 @@ class RandomStub(object):
     def reset(self):
         self.state = ['s0', 0]     # [stream id, position]; `current` state object
         self.draws = []            # log of (stream, pos, kind, shape)
+        self.concrete = None       # RandomState when the harness concretises the noise (recorded as a cut)
+
+    def use_concrete(self, seed):
+        """Concretise the RNG: draws are the doubles numpy's global generator yields after np.random.seed(seed)."""
+        _used('np.random concretised to the stream of np.random.seed(%d) (cut: noise values are not symbolic here)' % seed)
+        self.concrete = real_np.random.RandomState(seed)
 
     def _draw(self, kind, shape):
-        _used('np.random (fork-aware stream model)')
         if len(shape) == 1 and isinstance(shape[0], (tuple, list)):
             shape = tuple(shape[0])
         shape = tuple(int(s) for s in shape)
+        if self.concrete is not None:
+            if kind == 'normal':
+                return self.concrete.standard_normal(shape if shape else None)
+            return self.concrete.random_sample(shape if shape else None)
+        _used('np.random (fork-aware stream model)')
         n = int(np.prod(shape)) if shape else 1
         sid, pos = self.state
         out = np.empty((n,), dtype=object)
